@@ -255,6 +255,12 @@ func (*BaseNode).ReplaceChild
   ensures [parents] forall w addr {par(w)} :: (w != insertee && w != v1) ==> par(w) == old(par(w))
   modifies all(BaseNode.childCount), all(BaseNode.firstChild), all(BaseNode.lastChild), all(BaseNode.parent), all(BaseNode.next), all(BaseNode.prev)
 
+func NewHTMLBlock
+  ensures result != nil && fresh(result)
+  modifies nothing
+func IsParagraph
+  nilable node
+  modifies nothing
 // block nodes allocate their line list on demand: never nil
 func (*BaseBlock).Lines
   ensures result != nil
